@@ -9,6 +9,26 @@ CHECKS = {
    technique="contract-based deductive verification: pre/postconditions + stage lemmas on the real C functions (clang AST), VCs discharged by z3/cvc5; counterexamples replayed through ctypes",
    text="Unbounded proof, for the property's whole domain (idx<2^63, n<2^32, d<=1e9, n*d<2^64, before year 9999), that get_timestamp_floor and get_sample_ceil return exactly floor/ceil of the rational expressions, with a no-wrap obligation at every + - * (so machine and mathematical arithmetic agree); get_unix_time_rational verified modularly against those contracts; monotonicity and round-trip are lemmas over the contracts; the extension/Python wrappers are checked for argument plumbing and int(ps/1e6)==ps//10^6 under the correctly-rounded-division model.",
    note="trusted: gmtime (calendar breakdown, uninterpreted), PyArg_ParseTuple/Py_BuildValue, datetime constructor, IEEE correctly rounded division; our own VC generator (guarded by must-fail twins, covers, ledger, mutation self-tests)"),
+ "C04": dict(category="proof", design_ref="DESIGN.md §4 C04",
+   technique="contract-based deductive verification: contract of digital_rf_get_subdir_file proved modularly against the C03 contracts; layout lemmas (window, disjointness, subdirectory nesting) as lemma chains; new-file-iff-name-changes and stays-in-window as postconditions of the write step",
+   text="Unbounded proof that the file/subdirectory names are the exact rational floors (file_ms, dir_sec clauses), that samples_left/max are fstart differences, that every index lies in exactly one file window and every file in exactly one subdirectory (lemmas), that the writer opens a new file exactly when the derived name changes, creates it under that name, and never writes past the window (T <= samples_left), and that the C constructor enforces the cadence rule.",
+   note="trusted: snprintf decimal rendering, gmtime, strcmp; callee contracts of C03; the bound on index_len (<=3 quick, <=4 thorough) applies only to the body of create_rf_data_index (within_window clause), callers are unbounded; Python constructor's cadence check not yet under contract"),
+ "C05": dict(category="other", design_ref="DESIGN.md §4 C05",
+   technique="contract-based deductive verification of the public C write API: reject-iff-malformed and reject-before-effects as postconditions/frame conditions on every path (symbolic execution of the clang AST, z3)",
+   text="For the C API: digital_rf_write_blocks_hdf5 / write_samples_to_file / create_rf_data_index reject exactly the malformed calls of the property (proved: rejected <=> not WF0, for index_len <= bound), every rejecting path precedes every file-system/HDF5 effect and leaves the writer record unchanged (structural, all paths), rejection is atomic (only the first step of a call can reject; loop invariant), and an accepted call moves the cursor to one past its last sample. Python pre-validation not yet under contract.",
+   note="bounded part: loops of create_rf_data_index unrolled for index_len <= 3 (quick) / 4 (thorough), all values symbolic; everything else unbounded. HDF5/libc trusted."),
+ "C06": dict(category="other", design_ref="DESIGN.md §4 C06",
+   technique="contract-based deductive verification: functional contract of create_rf_data_index (rows and samples_to_write from the property), abstract index postcondition lemma, record/file invariant preserved by the write step over a ghost HDF5 file",
+   text="The per-file index invariant (>=1 row, offset 0 first, strictly increasing samples/offsets, no overlap, offsets inside the stored data, data inside the file window, dataset extent) is proved to be established by the first step and preserved by every later step of digital_rf_write_samples_to_file for all inputs (unbounded in index_len at this level); the exact rows computed by create_rf_data_index are proved against the property's specification with its loops unrolled (bounded). Attribute duplication / regeneration not yet under contract.",
+   note="bounded: body of create_rf_data_index / get_global_sample (index_len <= 3/4) and write_rf_data_index (<= 2/3 rows). Ghost HDF5 model trusted. One genuine defect (F1) found by this check was repaired (fix: commit in /repo)."),
+ "C19": dict(category="other", design_ref="DESIGN.md §4 C19",
+   technique="contract-based deductive verification: cursor postcondition of the write step and loop invariant of digital_rf_write_blocks_hdf5",
+   text="C side: after every successful step global_index = G(w+T-1)+1 (including the intended int64 wrap-around path), the step returns the number of samples written, and after a successful call the cursor is one past the highest index of the call; the recorded file names are those of the step's first sample. Python counters / getters not yet under contract.",
+   note="C part only so far; the extension's return-value plumbing and the Python counters are assumed. bounded part as in C06."),
+ "C01": dict(category="other", design_ref="DESIGN.md §4 C01",
+   technique="contract-based deductive verification (writer half): hyperslab placement, source pointer offset, index rows = block map of the data, composed over the ghost HDF5 file",
+   text="Writer half of the round trip: each step writes T rows x all subchannels at the dataset cursor from vector + w*elemsize*(2 if complex)*nsub with the element type of the channel, the index rows describe exactly the block map of the data written (row sample = G(data position), contiguous between rows), so the abstract channel gains exactly {G(p)+start -> v[p]}. Reader half (C08) and candidate file list not yet under contract.",
+   note="reader side assumed until C08 is built; HDF5 hyperslab I/O, filters and type conversion trusted; bounded part as in C06"),
 }
 _pending = "check not built yet in this round (work in progress, see DESIGN.md §8); not claimed until its obligations are generated and discharged"
 NOT_APPLICABLE = {f"C{i:02d}": _pending for i in range(1, 21) if f"C{i:02d}" not in CHECKS}
